@@ -63,6 +63,7 @@ type zzNode struct {
 	lastSig []byte // signature produced by the latest encode
 	outs    []*zzBlockOut // outputs of the menu blocks run so far (C07)
 	genPowers []int64     // genesis validator powers
+	beforeTx  func()      // called before every DeliverTx of a menu block (C01: pool flush)
 }
 
 func (n *zzNode) genesisPower(i int) int64 { return n.genPowers[i] }
